@@ -24,10 +24,12 @@ type SpecEnv struct {
 	depth int
 	allowUndefined bool
 	noUnfold bool
+	pol   int      // +1: formula in goal position, -1: hypothesis position, 0: unknown (no typing facts)
+	facts *[]Term  // typing facts of references read while evaluating (heap type safety)
 }
 
 func (e *SpecEnv) with(names map[string]SVal) *SpecEnv {
-	n := &SpecEnv{u: e.u, st: e.st, old: e.old, names: map[string]SVal{}, depth: e.depth + 1, allowUndefined: e.allowUndefined, noUnfold: e.noUnfold}
+	n := &SpecEnv{u: e.u, st: e.st, old: e.old, names: map[string]SVal{}, depth: e.depth + 1, allowUndefined: e.allowUndefined, noUnfold: e.noUnfold, pol: e.pol, facts: e.facts}
 	for k, v := range e.names {
 		n.names[k] = v
 	}
@@ -43,6 +45,59 @@ func (e *SpecEnv) evalTerm(x SExpr) (Term, error) {
 		return Term{}, err
 	}
 	return e.toTerm(v)
+}
+
+// evalGoal evaluates a formula that is to be proved; evalHyp one that is assumed. While evaluating,
+// the typing facts of all references read from the heap (0 <= ref < allocation counter: heap type
+// safety, true in every execution) are collected and attached where they help and are sound: as
+// antecedents of goals and of universally quantified goals, as extra conjuncts of hypotheses.
+func (e *SpecEnv) evalGoal(x SExpr) (Term, error) {
+	var fs []Term
+	sub := *e
+	sub.pol, sub.facts = 1, &fs
+	t, err := sub.evalBool(x)
+	if err != nil {
+		return Term{}, err
+	}
+	return Imp(And(fs...), t), nil
+}
+
+func (e *SpecEnv) evalHyp(x SExpr) (Term, error) {
+	var fs []Term
+	sub := *e
+	sub.pol, sub.facts = -1, &fs
+	t, err := sub.evalBool(x)
+	if err != nil {
+		return Term{}, err
+	}
+	return And(append([]Term{t}, fs...)...), nil
+}
+
+// noteRefs records typing facts for the reference-valued leaves of a value just read from the heap.
+func (e *SpecEnv) noteRefs(v Value, t types.Type) {
+	if e.facts == nil || e.pol == 0 || t == nil {
+		return
+	}
+	lfs := leaves(t)
+	if len(lfs) == 0 || len(lfs) > 8 {
+		return
+	}
+	var terms []Term
+	func() {
+		defer func() { recover() }()
+		terms = e.u.m.flatten(t, v)
+	}()
+	if len(terms) != len(lfs) {
+		return
+	}
+	for i, lf := range lfs {
+		switch lf.Kind {
+		case "ptr", "ref", "arr":
+			*e.facts = append(*e.facts, And(Le(IntLit(0), terms[i]), Lt(terms[i], e.st.alloc)))
+		case "len", "cap", "off":
+			*e.facts = append(*e.facts, Le(IntLit(0), terms[i]))
+		}
+	}
 }
 
 func (e *SpecEnv) evalBool(x SExpr) (Term, error) {
@@ -142,6 +197,15 @@ func (e *SpecEnv) eval(x SExpr) (SVal, error) {
 		}
 		return e.index(xv, iv)
 	case SUnary:
+		if n.Op == "!" {
+			neg := *e
+			neg.pol = -e.pol
+			t, err := neg.evalTerm(n.X)
+			if err != nil {
+				return SVal{}, err
+			}
+			return SVal{V: Scalar{Not(t)}}, nil
+		}
 		t, err := e.evalTerm(n.X)
 		if err != nil {
 			return SVal{}, err
@@ -165,9 +229,37 @@ func (e *SpecEnv) eval(x SExpr) (SVal, error) {
 			binders = append(binders, fmt.Sprintf("(%s %s)", bn, s))
 			names[v] = SVal{V: Scalar{Term{bn, s}}}
 		}
-		body, err := e.with(names).evalBool(n.Body)
+		sub := e.with(names)
+		var inner []Term
+		if e.facts != nil {
+			sub.facts = &inner
+		}
+		body, err := sub.evalBool(n.Body)
 		if err != nil {
 			return SVal{}, err
+		}
+		// typing facts that mention a bound variable belong to this quantifier, the others move outward
+		var dep []Term
+		for _, f := range inner {
+			mentions := false
+			for _, nm := range names {
+				if strings.Contains(f.S, nm.V.(Scalar).T.S) {
+					mentions = true
+				}
+			}
+			if mentions {
+				dep = append(dep, f)
+			} else if e.facts != nil {
+				*e.facts = append(*e.facts, f)
+			}
+		}
+		if len(dep) > 0 {
+			switch {
+			case n.Forall && e.pol > 0:
+				body = Imp(And(dep...), body)
+			case e.pol < 0: // hypothesis: forall x. P && T   /   exists x. P && T
+				body = And(append([]Term{body}, dep...)...)
+			}
 		}
 		q := "exists"
 		if n.Forall {
@@ -205,7 +297,9 @@ func (e *SpecEnv) selectField(xv SVal, name string) (SVal, error) {
 				if _, isStruct := ft.Underlying().(*types.Struct); isStruct {
 					return SVal{V: q, T: types.NewPointer(ft)}, nil
 				}
-				return SVal{V: u.loadNoAssume(e.st, q), T: ft}, nil
+				lv := u.loadNoAssume(e.st, q)
+				e.noteRefs(lv, ft)
+				return SVal{V: lv, T: ft}, nil
 			}
 		}
 		// ghost fields of opaque types: declared as heap functions, handled in callSpec
@@ -240,14 +334,18 @@ func (e *SpecEnv) index(xv, iv SVal) (SVal, error) {
 		if _, isStruct := elem.Underlying().(*types.Struct); isStruct {
 			return SVal{V: p, T: types.NewPointer(elem)}, nil
 		}
-		return SVal{V: u.loadNoAssume(e.st, p), T: elem}, nil
+		lv := u.loadNoAssume(e.st, p)
+		e.noteRefs(lv, elem)
+		return SVal{V: lv, T: elem}, nil
 	case Scalar:
 		if xv.T != nil {
 			switch t := xv.T.Underlying().(type) {
 			case *types.Array:
 				return SVal{V: Scalar{Select(x.T, it)}, T: t.Elem()}, nil
 			case *types.Map:
-				return SVal{V: u.mapLoadValNoAssume(e.st, t, x.T, u.mapKeyTerm(t, iv.V)), T: t.Elem()}, nil
+				lv := u.mapLoadValNoAssume(e.st, t, x.T, u.mapKeyTerm(t, iv.V))
+				e.noteRefs(lv, t.Elem())
+				return SVal{V: lv, T: t.Elem()}, nil
 			case *types.Basic:
 				return SVal{V: Scalar{app(SInt, "str_at", x.T, it)}}, nil
 			}
@@ -310,11 +408,22 @@ func (e *SpecEnv) binary(n SBinary) (SVal, error) {
 	u := e.u
 	switch n.Op {
 	case "&&", "||", "==>", "<==>":
-		a, err := e.evalBool(n.X)
+		le, re := e, e
+		switch n.Op {
+		case "==>":
+			l := *e
+			l.pol = -e.pol
+			le = &l
+		case "<==>":
+			l := *e
+			l.pol, l.facts = 0, nil
+			le, re = &l, &l
+		}
+		a, err := le.evalBool(n.X)
 		if err != nil {
 			return SVal{}, err
 		}
-		b, err := e.evalBool(n.Y)
+		b, err := re.evalBool(n.Y)
 		if err != nil {
 			if n.Op == "==>" && e.allowUndefined && strings.HasPrefix(err.Error(), "unknown name") {
 				// the consequent names a source local that is not defined on this path: the clause can
@@ -443,7 +552,7 @@ func (e *SpecEnv) callSpec(n SCall) (SVal, error) {
 		if len(n.Args) != 1 {
 			return SVal{}, fmt.Errorf("old takes one argument")
 		}
-		o := &SpecEnv{u: u, st: e.old, old: e.old, names: e.names, depth: e.depth}
+		o := &SpecEnv{u: u, st: e.old, old: e.old, names: e.names, depth: e.depth, pol: e.pol, facts: e.facts, allowUndefined: e.allowUndefined, noUnfold: e.noUnfold}
 		return o.eval(n.Args[0])
 	case "len", "cap":
 		v, err := e.eval(n.Args[0])
